@@ -40,18 +40,19 @@ func add(rootGoitPath, path string, index *store.Index) error {
 	cleanedRelPath := strings.ReplaceAll(relPath, `\`, "/") // replace backslash with slash
 	byteRelPath := []byte(cleanedRelPath)
 
-	// update index
-	isUpdated, err := index.Update(rootGoitPath, object.Hash, byteRelPath)
-	if err != nil {
-		return fmt.Errorf("fail to update index: %w", err)
-	}
-	if !isUpdated {
+	// nothing to do if the entry is already up to date
+	if _, entry, isEntryFound := index.GetEntry(byteRelPath); isEntryFound && entry.Hash.Compare(object.Hash) {
 		return nil
 	}
 
-	// write object to file
+	// write object to file before the index refers to it
 	if err := object.Write(rootGoitPath); err != nil {
 		return fmt.Errorf("fail to write object: %w", err)
+	}
+
+	// update index
+	if _, err := index.Update(rootGoitPath, object.Hash, byteRelPath); err != nil {
+		return fmt.Errorf("fail to update index: %w", err)
 	}
 
 	return nil
